@@ -472,7 +472,20 @@ impl ConfigActor {
             if let Some(s) = param.desc {
                 v.desc = Some(s);
             }
-            if !v.tmp && v.md5.as_str() == md5 {
+            // while a routed temporary value is held, `v.md5` is the md5 of that temporary value:
+            // decide "unchanged" against the last applied content instead
+            let unchanged = if v.tmp {
+                match v.histories.last() {
+                    Some(h) => h.content.as_str() == param.value.as_str(),
+                    None => false,
+                }
+            } else {
+                v.md5.as_str() == md5
+            };
+            if unchanged {
+                if v.md5.as_str() == md5 {
+                    v.tmp = false;
+                }
                 return Ok(ConfigResult::NULL);
             }
             if v.histories.is_empty() {
